@@ -25,9 +25,10 @@ if envstr("VF_ENTITIES", ""):         # another configuration: its own entities,
     SEARCHES = envstr("VF_SEARCHES", "").split(";")
 NOGETTER = envstr("VF_NOGETTER", "p,a,s").split(",")
 NOGETTER_SID = envstr("VF_NOGETTER_SID", "h/a")
+PRELUDE = envint("VF_PRELUDE", 0)
 SI = envint("VF_SI", 0)
 KEYS = ["comment", "author", "sid", "missing"]
-VALS = ["x", "a longer value", 7, "é"]
+VALS = ["x", "a longer value", 0, "é"]        # 0: a stored value that is falsy but not None
 ATTRS = [None, ["comment"], ["author", "sid", "missing"], [], ["sid"]]
 ENCODERS = [str, lambda s: s.uri, lambda s: None, lambda s: s]
 _R = list(range(32))
@@ -126,6 +127,11 @@ def all_vs_find(a1: int, e1: int) -> bool:
     """
     d0, a1, e1 = D0, _R[a1], _R[e1]
     _universe()
+    if PRELUDE:
+        try:
+            Sid(ENTITIES[0]).get_next("version")      # an attribute-specific Getter ('next.version') is asked first
+        except Exception:
+            pass
     search = SEARCHES[SI]
     attrs, enc = ATTRS[a1], ENCODERS[e1]
     found = [s for s in FindInAll().find(search, as_sid=True) if s.type not in NOGETTER]
